@@ -58,12 +58,49 @@ pub fn c02(ctx: &Ctx) -> (Report, Meta) {
             }
         }
     }
+    // hostile 1029 frames: multi-byte texts with every claim of the character counter, and byte counters that
+    // cut a character / run past the payload
+    if crate::common::feature_numbers().contains(&1029) {
+        let texts: Vec<String> = vec!["\u{e9}\u{e9}".into(), "a\u{e9}".into(), "\u{e9}a".into(), "\u{20ac}\u{20ac}".into(), "a\u{20ac}b".into(), "\u{1f600}".into(), "a\u{1f600}".into(), "\u{e9}\u{20ac}\u{1f600}".into(), "ab\u{1f600}\u{e9}".into(), std::iter::repeat('\u{e9}').take(100).collect(), std::iter::repeat('\u{1f600}').take(63).collect()];
+        for t in &texts {
+            let tb = t.as_bytes();
+            for claim in 0..=127u64 {
+                let mut bl: Vec<usize> = vec![tb.len(), tb.len().saturating_sub(1), 1, tb.len() + 1, 255];
+                bl.sort();
+                bl.dedup();
+                for blen in bl {
+                    if blen != tb.len() && claim % 16 != 1 {
+                        continue;
+                    }
+                    let mut w = BitW::new();
+                    w.put(1029, 12);
+                    w.put(0, 12 + 16 + 17);
+                    w.put(claim, 7);
+                    w.put(blen as u64, 8);
+                    for b in tb {
+                        w.put(*b as u64, 8);
+                    }
+                    let f = make_frame(&w.to_bytes());
+                    rep.transitions += 1;
+                    rep.states += 1;
+                    match catch(|| MessageFrame::new(&f).map(|fr| { let m = fr.get_message(); m == m }).unwrap_or(true)) {
+                        Ok(true) => {
+                            rep.traces += 1;
+                            rep.outcome("hostile-1029-frame");
+                        }
+                        Ok(false) => rep.violation("C02", "hostile:self-inequality:1029".into(), "decoded message != itself".into(), f.len() as u64, json!({"kind":"frame_decode","frame":hex(&f)})),
+                        Err(p) => rep.violation("C02", panic_key(&p, "1029"), format!("msg 1029: frame with text {:02x?}, character counter {} and code-unit counter {} panics at {}: {}", tb, claim, blen, p.location, p.message), f.len() as u64, json!({"kind":"frame_decode","frame":hex(&f)})),
+                    }
+                }
+            }
+        }
+    }
     rep.distinct_nontrivial = rep.states;
     rep.sample(json!({"number":1077,"base":"ones","level":1,"deviations":[{"bit_offset":73,"bits":64,"value":"0x8000000000000000 (one satellite)"}],"expect":"typed or Corrupt, no panic"}));
     rep.sample(json!({"number":1004,"base":"zero","level":1,"deviations":[{"bit_offset":55,"bits":5,"value":"every 0..31"}],"then":"T = needed, needed-1 bytes"}));
     let thorough = ctx.tier.thorough();
     let meta = Meta {
-        rule: "for every supported message number and every base payload (zero, ones, the repository's testdata payloads zero-extended to 1023 bytes, + a counter pattern in thorough): the 0-deviation run, every payload length 0..=1023, every single-field deviation (positions from the H2 parse trace; all 2^len values for len<=8, boundary values and mask patterns above), payload lengths 'needed' and 'needed-1' for typed results; 2 deviations (control field at each boundary value x every later field at its boundary alphabet; control pairs first) up to a cap per base (3 000 quick / 1 500 000 thorough, where thorough uses the full single-field alphabet for the second field as well); thorough adds 3 deviations (control x control x later control-like field, cap 150 000 per base). Plus raw buffers: alphabet strings, token streams and buffers beyond 1029 bytes scanned with MsgFrameIter and every frame decoded. Oracle: no panic, a documented outcome, m == m, no NaN/inf in the Debug rendering (scanned for the first execution of every distinct parse-trace shape; per-field finiteness over all patterns is C08's). states = distinct (parse-trace shape, outcome) pairs; transitions = decoder executions".into(),
+        rule: "for every supported message number and every base payload (zero, ones, the repository's testdata payloads zero-extended to 1023 bytes, + a counter pattern in thorough): the 0-deviation run, every payload length 0..=1023, every single-field deviation (positions from the H2 parse trace; all 2^len values for len<=8, boundary values and mask patterns above), payload lengths 'needed' and 'needed-1' for typed results; 2 deviations (control field at each boundary value x every later field at its boundary alphabet; control pairs first) up to a cap per base (3 000 quick / 1 500 000 thorough, where thorough uses the full single-field alphabet for the second field as well); thorough adds 3 deviations (control x control x later control-like field, cap 150 000 per base). Plus hostile harness-written frames (1059/1065 with every satellite count and maximal bias counts; 1029 with multi-byte texts under every claim of the character counter and inconsistent code-unit counters). Plus raw buffers: alphabet strings, token streams and buffers beyond 1029 bytes scanned with MsgFrameIter and every frame decoded. Oracle: no panic, a documented outcome, m == m, no NaN/inf in the Debug rendering (scanned for the first execution of every distinct parse-trace shape; per-field finiteness over all patterns is C08's). states = distinct (parse-trace shape, outcome) pairs; transitions = decoder executions".into(),
         exhaustive: false,
         bounds: json!({"deviation_bound": if thorough {3} else {2}, "level2_cap_per_base": if thorough {1500000} else {3000}, "level3_cap_per_base": if thorough {150000} else {0}, "payload_lengths":"0..=1023 at level 0", "note":"deviation-bounded: complete for <= bound deviations from each base within the stated alphabets; where the level-2 cap was hit the evidence counts it"}),
         assumptions: vec!["field positions come from the parse trace of the parent run (a field's position depends only on earlier fields)".into()],
